@@ -531,6 +531,20 @@ func (p *prover) lenOf(s ssa.Value) lin {
 				return r
 			}
 		}
+		switch calleeID(x) {
+		case "bytes.TrimSuffix", "bytes.TrimPrefix", "strings.TrimSuffix", "strings.TrimPrefix":
+			// the argument, or the argument without the given affix: len(s)-len(affix) <= len(result) <= len(s)
+			if len(x.Call.Args) == 2 {
+				a := p.lenAtom(s)
+				if l := p.lenOf(x.Call.Args[0]); l.ok && l.neg == "" {
+					p.add(dfact{a, l.pos, l.c, "Trim: len(result) <= len(s)"})
+					if af := p.lenOf(x.Call.Args[1]); af.ok && af.pos == "" && af.neg == "" {
+						p.add(dfact{l.pos, a, af.c - l.c, "Trim: len(result) >= len(s) - len(affix)"})
+					}
+				}
+				return atomLin(a)
+			}
+		}
 	}
 	return atomLin(p.lenAtom(s))
 }
